@@ -134,9 +134,6 @@ def check_lock(ctx):
     if isinstance(core, ast.Subscript):
         core = core.value   # a re-alignment is judged by C08-ORDER
     ctx.check(R, M["stmt"], "ids = the concatenation of the per-source id blocks", core is not None and canon(core) == canon(parse("np.concatenate(%s)" % roles["ids"])), "ids = `%s`" % (A.unparse(idsr)[:70] if idsr is not None else None), key="concat:ids")
-    # d is data[k]
-    dd = [s for s in loop.body if isinstance(s, ast.Assign) and isinstance(s.targets[0], ast.Name) and canon(s.value) == canon(parse(dsub))]
-    ctx.check(R, loop, "each source is looked up under its own key", bool(dd) or isinstance(loop.target, ast.Tuple), "no `d = data[k]` in the loop", key="d", nontrivial=False)
     # list -> dict keyed by position
     okl = False
     for n in A.walk_local(fn):
@@ -298,8 +295,10 @@ def check_col(ctx):
     why = "no return"
     if len(rets) == 1:
         v = rets[0][0]
-        want = "np.hstack((get_constant_term_design_matrix(data, ids), np.vander(data._t_bmjd - data._t_ref_bmjd, N=poly_trend, increasing=True)[:, 1:]))"
-        okt = canon(v) == canon(parse(want))
+        parts = "(get_constant_term_design_matrix(data, ids), np.vander(data._t_bmjd - data._t_ref_bmjd, N=poly_trend, increasing=True)[:, 1:])"
+        # both blocks are 2-D (n_times x k): hstack, column_stack and concatenate(axis=1) all put them side by side
+        wants = ["np.hstack(%s)", "np.concatenate(%s, axis=1)", "np.concatenate(%s, axis=-1)", "np.column_stack(%s)", "np.concatenate(%s, 1)"]
+        okt = canon(v) in {canon(parse(w % parts)) for w in wants} | {canon(parse(w % parts.replace("(get", "[get").replace(":])", ":]]"))) for w in wants}
         why = "returns `%s`" % A.unparse(v)[:140]
     ctx.check(R, tf, "trend matrix = [constant/offset columns | (t - t_ref)^1.. ]", okt, why, key="trend")
     # count check dominates the merge
@@ -308,9 +307,14 @@ def check_col(ctx):
     rv = [A.enclosing_stmt(c) for c in A.calls_in(vp) if A.call_name(c) == "RVData"]
     ctx.check(R, vp, "source-count check precedes the merge", g is not None and bool(rv) and A.dominates(g, rv[0]), "no dominating `len(unique(ids)) - 1 != n_offsets -> raise`", key="count")
     tm = [c for c in A.calls_in(vp) if A.call_name(c) == "get_trend_design_matrix"]
-    okc = all(canon(c.args[0]) in ("all_data", "data") and canon(c.args[2]) == "poly_trend" for c in tm) and len(tm) == 2
-    multi = [c for c in tm if canon(c.args[0]) == "all_data"]
-    okc = okc and len(multi) == 1 and canon(multi[0].args[1]) == "ids"
+    single = [c for c in tm if len(c.args) == 3 and canon(c.args[0]) == "data" and isinstance(c.args[1], ast.Constant) and c.args[1].value is None]
+    multi = [c for c in tm if c not in single]
+    okc = len(tm) == 2 and len(single) == 1 and len(multi) == 1 and all(len(c.args) == 3 and canon(c.args[2]) == "poly_trend" for c in tm)
+    if okc:
+        m0 = A.inline_temporaries(multi[0].args[0], A.enclosing_stmt(multi[0]), vp)
+        mm = analyse_merge(vp)
+        # the multi-source matrix is built from the merged RVData and the ids array assembled with it (its content is judged by C08-LOCK / C08-ORDER)
+        okc = isinstance(m0, ast.Call) and A.call_name(m0) == "RVData" and mm is not None and "ids" in mm["roles"]
     ctx.check(R, vp, "design matrix built from the merged data and its ids", okc, "get_trend_design_matrix calls: %s" % [A.unparse(c)[:50] for c in tm], key="tm-call")
     # offsets keep the caller's order (k-th further source <-> v0_offsets[k-1])
     init = ctx.prog.func(PR, "JokerPrior.__init__", R)
